@@ -19,7 +19,7 @@ structure UnicodeOps where
   fold : Char → List Char
 
 /-- letters occurring in the seven package type names -/
-def typeNameLetters : List Char := "cargoemlnvpuyit".toList
+def typeNameLetters : List Char := ['c', 'a', 'r', 'g', 'o', 'e', 'm', 'l', 'n', 'v', 'p', 'u', 'y', 'i', 't']
 
 class LawfulUnicode (U : UnicodeOps) : Prop where
   /-- L1: on ASCII, lower-casing is ASCII lower-casing -/
